@@ -897,14 +897,27 @@ fn dlt_message_intern<'a>(
             ParsedMessage::FilteredOut(payload_length as usize),
         ));
     }
-    let (i, payload) = if header.endianness == Endianness::Big {
-        dlt_payload::<BigEndian>(after_headers, verbose, payload_length, arg_count, msg_type)?
+    // the payload is exactly the slice announced by the length field: arguments are
+    // parsed from that slice only and the next message starts right behind it
+    let (after_message, payload_bytes) = take(payload_length)(after_headers)?;
+    let payload_res = if header.endianness == Endianness::Big {
+        dlt_payload::<BigEndian>(payload_bytes, verbose, payload_length, arg_count, msg_type)
     } else {
-        dlt_payload::<LittleEndian>(after_headers, verbose, payload_length, arg_count, msg_type)?
+        dlt_payload::<LittleEndian>(payload_bytes, verbose, payload_length, arg_count, msg_type)
     };
-    dbg_parsed("payload", after_headers, i, &payload);
+    let (_, payload) = match payload_res {
+        Ok(res) => res,
+        Err(nom::Err::Incomplete(_)) => {
+            // all declared bytes were available, so more input cannot help
+            return Err(Error(DltParseError::ParsingHickup(
+                "payload content exceeds the declared message length".to_string(),
+            )));
+        }
+        Err(e) => return Err(e),
+    };
+    dbg_parsed("payload", after_headers, after_message, &payload);
     Ok((
-        i,
+        after_message,
         ParsedMessage::Item(Message {
             storage_header: storage_header_shifted.map(|shs| shs.0),
             header,
